@@ -86,6 +86,33 @@ class EagerGen(list):
         return out
 
 
+class Partial(Closure):
+    """functools.partial over a function of the evaluated program: behaves as the inner closure with a bound argument
+    prefix (analyses that look at the hook as a function see the inner definition plus `.bound`)."""
+
+    def __init__(self, inner, bound, bound_kw):
+        base = inner
+        pre = []
+        kw = {}
+        if isinstance(inner, Partial):
+            base, pre, kw = inner.inner, list(inner.bound), dict(inner.bound_kw)
+        super().__init__(base.node, base.env, base.interp)
+        self.inner = base
+        self.bound = pre + list(bound)
+        self.bound_kw = {**kw, **bound_kw}
+
+    def __call__(self, *args, **kwargs):
+        return self.inner(*(list(self.bound) + list(args)), **{**self.bound_kw, **kwargs})
+
+
+def functools_module():
+    def partial(f, *a, **k):
+        if isinstance(f, Closure):
+            return Partial(f, a, k)
+        raise AnalysisError("functools.partial over something that is not a function of the analysed program")
+    return ModuleRef("functools", attrs={"partial": ("host", partial)})
+
+
 class _Return(Exception):
     def __init__(self, v):
         self.v = v
@@ -135,6 +162,8 @@ class Interp:
                         self.globals[nm] = ModuleRef(a.name)
                     elif a.name == "itertools":
                         self.globals[nm] = _itertools_module(self)
+                    elif a.name == "functools":
+                        self.globals[nm] = functools_module()
                     elif a.name == "json":
                         import json as _json
                         self.globals[nm] = ModuleRef("json", attrs={"dumps": ("host", _json.dumps), "loads": ("host", _json.loads)})
